@@ -16,6 +16,9 @@
 #include <amgcl/relaxation/ilup.hpp>
 #include <amgcl/relaxation/ilut.hpp>
 #include <amgcl/value_type/static_matrix.hpp>
+#include <amgcl/value_type/complex.hpp>
+#include <amgcl/adapter/block_matrix.hpp>
+#include <complex>
 #include "harness_main.hpp"
 
 const char *CHECK_ID = "C06";
@@ -144,6 +147,60 @@ static void block_ilu_exact(const Plan &p, Result &res, const char *name, Setup 
     res.counts["block_ilu_exactness"]++;
 }
 
+
+// ---- complex / 2x2-block valued smoothers: fixed point of the exact solution, Jacobi and Gauss-Seidel by their definitions in the
+// value type's own (non-commutative) algebra, level-scheduled Gauss-Seidel == serial ----------------------------------------------
+template <class V> struct c06v;
+template <> struct c06v<std::complex<double> > { static const char* name() { return "complex"; }
+    static std::shared_ptr<amgcl::backend::crs<std::complex<double> > > matrix(const gen::Csr &G, uint64_t seed) { auto M = std::make_shared<amgcl::backend::crs<std::complex<double> > >(); M->set_size(G.n, G.n, false); for (long i = 0; i <= G.n; ++i) M->ptr[i] = G.ptr[i]; M->set_nonzeros(G.nnz());
+        for (long i = 0; i < G.n; ++i) for (ptrdiff_t j = G.ptr[i]; j < G.ptr[i+1]; ++j) { M->col[j] = G.col[j]; uint64_t h = sim::hash_combine((uint64_t)i * 2654435761u + (uint64_t)G.col[j], seed); M->val[j] = std::complex<double>(G.val[j], G.col[j] == i ? 0.0 : G.val[j] * (double)((long)(h % 9) - 4) / 16.0); } return M; }
+    static std::complex<double> rhs(long a, long b) { return std::complex<double>((double)a, (double)b); } };
+template <> struct c06v<amgcl::static_matrix<double,2,2> > { static const char* name() { return "block2x2"; }
+    static std::shared_ptr<amgcl::backend::crs<amgcl::static_matrix<double,2,2> > > matrix(const gen::Csr &G, uint64_t) { typedef amgcl::static_matrix<double,2,2> BV; if (G.n % 2 || G.n < 2) return std::shared_ptr<amgcl::backend::crs<BV> >();
+        gen::Csr Gc = G; auto As = to_crs(Gc); amgcl::backend::sort_rows(*As); return std::make_shared<amgcl::backend::crs<BV> >(amgcl::adapter::block_matrix<BV>(*As)); }
+    static amgcl::static_matrix<double,2,1> rhs(long a, long b) { amgcl::static_matrix<double,2,1> r; r(0) = (double)a; r(1) = (double)b; return r; } };
+
+template <class V, class M, class BP, class F> static typename std::enable_if<(amgcl::math::static_rows<V>::value == 1)>::type spai1_fixed_point(const M &A, const BP &bp, F &fp) { typedef amgcl::backend::builtin<V> VB; rx::spai1<VB> s(A, typename rx::spai1<VB>::params(), bp); fp(s); }
+template <class V, class M, class BP, class F> static typename std::enable_if<(amgcl::math::static_rows<V>::value > 1)>::type spai1_fixed_point(const M &, const BP &, F &) {}
+
+template <class V>
+static void valued_smoothers(const Plan &p, Result &res) {
+    namespace m = amgcl::math;
+    typedef amgcl::backend::builtin<V> VB; typedef typename m::rhs_of<V>::type RV; typedef amgcl::backend::crs<V> VM;
+    gen::Csr G = gen::make_matrix((int)p.get("family"), std::min<long>(p.get("n"), 80), (uint64_t)p.get("mseed"), (int)p.get("contrast"), 1);
+    auto A = c06v<V>::matrix(G, (uint64_t)p.get("mseed")); if (!A) return;
+    const long n = (long)A->nrows; int rl = (int)p.get("relax");
+    sim::rng r((uint64_t)p.get("vseed"), "c06v");
+    std::vector<RV> xs(n), f(n), x0(n), tmp(n);
+    for (long i = 0; i < n; ++i) { xs[i] = c06v<V>::rhs((long)r.range(-8, 8), (long)r.range(-8, 8)); x0[i] = c06v<V>::rhs((long)r.range(-4, 4), (long)r.range(-4, 4)); }
+    for (long i = 0; i < n; ++i) { RV t = m::zero<RV>(); for (ptrdiff_t j = A->ptr[i]; j < A->ptr[i+1]; ++j) t += A->val[j] * xs[A->col[j]]; f[i] = t; }
+    auto dist = [&](const std::vector<RV> &a, const std::vector<RV> &b) { double d = 0; for (long i = 0; i < n; ++i) { RV e = a[i] - b[i]; d = std::max(d, (double)m::norm(e)); } return d; };
+    auto vmax = [&](const std::vector<RV> &a) { double d = 0; for (long i = 0; i < n; ++i) d = std::max(d, (double)m::norm(a[i])); return d; };
+    auto sig = [&](const char *oracle, const char *clause, const std::string &detail) { Violation v; v.oracle = oracle; v.add("component", relax_names[rl]); v.add("clause", clause); v.add("shape", c06v<V>::name()); v.detail = detail; return v; };
+    typename VB::params bp; const double xscale = 1 + vmax(xs);
+    auto fixed_point = [&](auto &R) { for (int pre = 0; pre < 2; ++pre) { std::vector<RV> x = xs; if (pre) R.apply_pre(*A, f, x, tmp); else R.apply_post(*A, f, x, tmp); double d = dist(x, xs); if (!(d <= 1e-9 * xscale)) res.fail(sig("fixed-point", "valued", fmt("%s-sweep moves the exact solution by %.3g", pre ? "pre" : "post", d))); } };
+    auto diag = [&](long i) { V d = m::identity<V>(); for (ptrdiff_t j = A->ptr[i]; j < A->ptr[i+1]; ++j) if (A->col[j] == i) d = A->val[j]; return d; };
+    switch (rl) {
+    case R_JACOBI: { typedef rx::damped_jacobi<VB> R; typename R::params pr; pr.damping = (float)((double)p.get("damping16") / 16.0); R s(*A, pr, bp); fixed_point(s);
+        std::vector<RV> x = x0; s.apply_pre(*A, f, x, tmp); std::vector<RV> want(n);
+        for (long i = 0; i < n; ++i) { RV t = f[i]; for (ptrdiff_t j = A->ptr[i]; j < A->ptr[i+1]; ++j) t -= A->val[j] * x0[A->col[j]]; want[i] = x0[i] + (double)pr.damping * (m::inverse(diag(i)) * t); }
+        double d = dist(x, want); if (!(d <= 1e-11 * (1 + vmax(want)))) res.fail(sig("definition", "valued x+omega*D^-1*(f-Ax)", fmt("difference from the definition %.3g", d))); break; }
+    case R_GS: { typedef rx::gauss_seidel<VB> R; typename R::params ps, pp; ps.serial = true; pp.serial = false; R s(*A, ps, bp), q(*A, pp, bp); fixed_point(q);
+        for (int pre = 1; pre >= 0; --pre) { std::vector<RV> a = x0, b = x0, w = x0; if (pre) { s.apply_pre(*A, f, a, tmp); q.apply_pre(*A, f, b, tmp); } else { s.apply_post(*A, f, a, tmp); q.apply_post(*A, f, b, tmp); }
+            if (std::memcmp(a.data(), b.data(), sizeof(RV) * n) != 0) res.fail(sig("parallel-equals-serial", pre ? "valued forward" : "valued backward", fmt("nt=%ld: level-scheduled sweep differs from the serial one by %.3g", p.get("nt"), dist(a, b))));
+            for (long k = 0; k < n; ++k) { long i = pre ? k : n - 1 - k; RV t = f[i]; for (ptrdiff_t j = A->ptr[i]; j < A->ptr[i+1]; ++j) if (A->col[j] != i) t -= A->val[j] * w[A->col[j]]; w[i] = m::inverse(diag(i)) * t; }
+            double d = dist(a, w); if (!(d <= 1e-11 * (1 + vmax(w)))) res.fail(sig("definition", pre ? "valued forward-triangular-solve" : "valued backward-triangular-solve", fmt("difference from the definition %.3g", d))); }
+        if (!q.is_serial) res.counts["gs_parallel_path"]++; break; }
+    case R_SPAI0: { rx::spai0<VB> s(*A, typename rx::spai0<VB>::params(), bp); fixed_point(s); break; }
+    case R_SPAI1: { spai1_fixed_point<V>(*A, bp, fixed_point); break; }      // (SPAI-1 is not available for block values)
+    case R_CHEB: { typedef rx::chebyshev<VB> R; typename R::params pr; pr.degree = (unsigned)p.get("degree"); pr.scale = p.get("cheb_scale") != 0; R s(*A, pr, bp); fixed_point(s); break; }
+    case R_ILU0: { typedef rx::ilu0<VB> R; typename R::params ps, pp; ps.solve.serial = true; pp.solve.serial = false; R s(*A, ps, bp), q(*A, pp, bp); fixed_point(q);
+        std::vector<RV> a = x0, b = x0; s.apply_pre(*A, f, a, tmp); q.apply_pre(*A, f, b, tmp); double d = dist(a, b); if (!(d <= 1e-10 * (1 + vmax(a)))) res.fail(sig("parallel-equals-serial", "valued level-scheduled-triangular-solve", fmt("max difference %.3g", d))); break; }
+    default: break;
+    }
+    res.counts[std::string("valued_smoothers_") + c06v<V>::name()]++;
+}
+
 Plan generate(uint64_t seed, uint64_t run, bool thorough) {
     sim::rng r(seed, "world", run);
     Plan p;
@@ -164,6 +221,7 @@ Plan generate(uint64_t seed, uint64_t run, bool thorough) {
     p.set("unsorted", r.chance(0.3) ? 1 : 0, 0);     // rows stored diagonal-first (smoothers that do not document sorted rows)
     p.set("block", r.chance(0.2) ? 1 : 0, 0);        // block-valued ILU exactness instead of the scalar worlds
     p.set("nt", r.chance(0.25) ? draw_nt(r, 1, 3) : draw_nt(r, 4, 32), 1);
+    p.set("valued", r.chance(0.12) ? r.range(1, 2) : 0, 0);      // complex / 2x2 block valued smoothers (Jacobi, GS, SPAI-0/1, Chebyshev, ILU(0))
     draw_schedule(r, p.sched, (int)p.get("nt"));
     return p;
 }
@@ -319,6 +377,14 @@ Result execute(const Plan &p) {
         }
     };
 
+    if (p.get("valued", 0) && rl <= R_ILU0) {
+        sim::RunStatus sv = world(nt, p.sched, [&]() { try { if (p.get("valued") == 1) valued_smoothers<std::complex<double> >(p, res); else valued_smoothers<amgcl::static_matrix<double,2,2> >(p, res); }
+            catch (const std::exception &e) { Violation v; v.oracle = "no-exception"; v.add("component", relax_names[rl]); v.add("clause", "valued-threw"); v.detail = e.what(); res.fail(v); } });
+        res.absorb(sv); res.deviations = sv.deviations; res.nontrivial = true;
+        res.key = sim::hash_combine((uint64_t)p.get("mseed"), (uint64_t)(rl * 91 + p.get("n") * 5 + p.get("valued") * 100003 + 1000 * nt)); res.key = sim::hash_combine(res.key, (uint64_t)p.get("vseed"));
+        js::Value s = js::Value::object(); s.set("relaxation", relax_names[rl]); s.set("values", p.get("valued") == 1 ? "complex" : "2x2 blocks through the block adapter"); s.set("family", gen::family_name((int)p.get("family"))); s.set("n", std::min<long>(p.get("n"), 80)); s.set("nt", nt); res.sample = s;
+        return res;
+    }
     if (p.get("block") && rl >= R_ILU0) {
         sim::RunStatus sb = world(nt, p.sched, [&]() { try {
             switch (rl) {
